@@ -104,6 +104,36 @@ let check inp obs =
           (* every announcement that was persisted must be back in memory, under its epoch and block *)
           if o <> m then begin eq := false; bad "restored maps differ from the persisted announcements %s" m end;
           xs := x'
+        | ["U"; sc; h] ->
+          let h = parse_hdr h in
+          if not (valid_hdr t h) then fail "C26: bad header in %s" q;
+          let (se, ce) = match String.split_on_char '.' sc with
+            | [a; b] -> (n_of_hex a, n_of_hex b) | _ -> fail "bad skipped query %s" q in
+          skipped := true;
+          if foreign st.ncd se h then nontrivial := true;
+          (match update_skipped fixed true fuel st se ce h with
+           | Ok alts ->
+             tag "U-ok";
+             if foreign st.ncd se h && announced t st.ncd se h = [] && alookup st.dbc se = None then tag "U-past-competing-fork";
+             let acc = List.map (fun (s' : est) -> ("ok/MC=" ^ dump s'.ncd, s')) alts in
+             model_toks := String.concat "|" (List.map fst acc) :: !model_toks;
+             (match List.find_opt (fun (tk, _) -> tk = o) acc with
+              | Some (_, s') -> xs := { !xs with x_s = s' }
+              | None -> eq := false; xs := { !xs with x_s = snd (List.hd acc) })
+           | Err c ->
+             tag "U-err";
+             let m = List.hd (tok_of_out "" hang (Err c)) ^ "/MC=" ^ dump st.ncd in
+             model_toks := m :: !model_toks; if o <> m then eq := false
+           | _ ->
+             (* the skipped epoch's data is not in the database: the Go code would die in the lock
+                mix-up of updateSkippedEpochDataRaw; the harness does not make the call *)
+             tag "U-not-run(fatal-lock-path)";
+             let m = "skip/MC=" ^ dump st.ncd in
+             model_toks := m :: !model_toks; if o <> m then eq := false);
+          (* specification: the re-keying never fails (C26_update_skipped_total): what another fork
+             announced must not keep this block from being imported *)
+          if not (String.length o >= 3 && (String.sub o 0 3 = "ok/" || (String.length o >= 5 && String.sub o 0 5 = "skip/"))) then
+            bad "UpdateSkippedEpochDefinitions failed"
         | [("E" | "C") as k; sc; h] ->
           let h = parse_hdr h in
           if not (valid_hdr t h) then fail "C26: bad header in %s" q;
